@@ -643,7 +643,7 @@ func main() {
 	cfg := hx.ParseFlags()
 	defer cfg.Close()
 	T := 3 * time.Second
-	workers := 16
+	workers := 32
 	if cfg.Thorough() {
 		T = 10 * time.Second
 		workers = 12
